@@ -23,7 +23,7 @@ RULE = ('Evaluation = one scene run with the same effective parameter values thr
 ASSUMPTIONS = ['scaling modes other than minmax-scale can only be installed by replacing SLICING_PRMS in the global dictionary '
                '(per-call and YAML routes merge into height_scale_kwargs), so route equivalence is checked for minmax-scale',
                'the packaged YAML is parsed independently with ruamel.yaml as the reference for reset']
-REQUIRED = ['routes_4', 'yaml_route', 'poisoned_global', 'unknown_key_warning', 'none_override', 'reset_all_after_nested_edit',
+REQUIRED = ['routes_4', 'yaml_route', 'poisoned_global', 'unknown_key_warning', 'unknown_keys_listed_first', 'none_override', 'reset_all_after_nested_edit',
             'reset_subset_after_nested_edit', 'reset_unknown_name', 'nested_override', 'dict_subclass_sections', 'global_route_with_history']
 SIZES = {'quick': dict(scenes=110, subsets=200), 'thorough': dict(scenes=1500, subsets=2 ** 14)}
 EXHAUSTIVE = {'thorough': 'all 2^14 subsets of the top-level parameter names passed to reset_prms (reset part only)'}
@@ -190,6 +190,13 @@ def check_routes(desc):
             for k in path[:-1]:
                 dd = dd.setdefault(k, {})
             dd[path[-1]] = {'x': 1} if len(path) == 1 else 5
+        if desc['i'] % 4 == 0:
+            # the unknown entries come FIRST at their level (the order of the keys must not matter)
+            def front(d, ref):
+                ks = [k for k in d if not (isinstance(ref, dict) and k in ref)] + [k for k in d if isinstance(ref, dict) and k in ref]
+                return {k: (front(d[k], ref.get(k)) if isinstance(d[k], dict) and isinstance(ref, dict) and isinstance(ref.get(k), dict) else d[k]) for k in ks}
+            q = front(q, defaults)
+            tags.add('unknown_keys_listed_first')
         ampycloud.reset_prms()
         with warnings.catch_warnings(record=True) as wl:
             warnings.simplefilter('always')
